@@ -73,8 +73,11 @@ PLAN = dict(
              timeout_quick=900, timeout_thorough=5400, **MC),
         dict(module="MC_IpcFraming", cfg_quick="MC_IpcFraming_quick.cfg", cfg_thorough="MC_IpcFraming.cfg",
              timeout_quick=900, timeout_thorough=5400, **MC),
+        dict(module="MC_IpcFraming", cfg="MC_IpcFraming_meta2.cfg", tiers=("thorough",), timeout=5400, **MC),
+        dict(module="MC_IpcFraming", cfg="MC_IpcFraming_w4.cfg", tiers=("thorough",), timeout=5400, **MC),
         dict(module="MC_AvroOcf", cfg_quick="MC_AvroOcf_quick.cfg", cfg_thorough="MC_AvroOcf.cfg",
              timeout_quick=900, timeout_thorough=5400, may_be_unused=["SoeStep"], **MC),
+        dict(module="MC_AvroOcf", cfg="MC_AvroOcf_2blocks.cfg", tiers=("thorough",), timeout=5400, may_be_unused=["SoeStep"], **MC),
         dict(module="MC_AvroSoe", cfg_quick="MC_AvroSoe_quick.cfg", cfg_thorough="MC_AvroSoe.cfg",
              timeout_quick=900, timeout_thorough=5400, may_be_unused=["OcfStep"], **MC),
         dict(module="MC_CsvRecords", cfg_quick="MC_CsvRecords_quick.cfg", cfg_thorough="MC_CsvRecords.cfg",
